@@ -7,7 +7,7 @@ that no longer matches its pattern is an extraction error (value 0 / false is em
 import os, re, sys
 
 REPO = os.environ.get("VERIF_REPO", "/repo")
-OUT = os.path.join(os.path.dirname(os.path.abspath(__file__)), "..", "lean", "LzmaVerif", "Generated", "MfParams.lean")
+OUT = os.environ.get("MF_OUT") or os.path.join(os.path.dirname(os.path.abspath(__file__)), "..", "lean", "LzmaVerif", "Generated", "MfParams.lean")
 
 
 def src(p):
@@ -107,6 +107,21 @@ grab(B, r"let pair_selector = self\.cyclic_size \* \(\(delta > self\.cyclic_pos\
 grab(B, r"let mut ptr0 = sh_left\(self\.cyclic_pos\) \+ 1; let mut ptr1 = sh_left\(self\.cyclic_pos\);", 2, None, "ptr0 / ptr1")
 grab(B, r"let mut len = len0\.min\(len1\);", 2, None, "len = min(len0, len1)")
 
+F = "src/enc/encoder_fast.rs"
+fp = {}
+fp["matchLenMin"] = grab("src/lib.rs", r"const MATCH_LEN_MIN: usize = ([0-9]+);", 1, num, "MATCH_LEN_MIN")
+fp["matchLenMax"] = grab("src/lib.rs", r"const MATCH_LEN_MAX: usize = MATCH_LEN_MIN \+ LOW_SYMBOLS \+ MID_SYMBOLS \+ HIGH_SYMBOLS - 1;", 1, None, "MATCH_LEN_MAX formula") and 273
+fp["pairShift"] = grab(F, r"fn change_pair\(small_dist: u32, big_dist: u32\) -> bool \{ small_dist < \(big_dist >> ([0-9]+)\) \}", 1, num, "change_pair shift")
+fp["len2DistMin"] = grab(F, r"if main_len == MATCH_LEN_MIN as u32 && main_dist >= (0x[0-9A-Fa-f]+) \{ main_len = 1; \}", 1, num, "length-2 distance threshold")
+fp["repDist2"] = grab(F, r"\(best_rep_len \+ 2 >= main_len as usize && main_dist >= \(1 << ([0-9]+)\)\)", 1, lambda x: 1 << int(x), "rep preference threshold 2")
+fp["repDist3"] = grab(F, r"\(best_rep_len \+ 3 >= main_len as usize && main_dist >= \(1 << ([0-9]+)\)\)", 1, lambda x: 1 << int(x), "rep preference threshold 3")
+grab(F, r"let avail = encoder\.lz\.data\.get_avail\(\)\.min\(MATCH_LEN_MAX as i32\); if avail < MATCH_LEN_MIN as i32 \{ return 1; \}", 1, None, "avail limit")
+grab(F, r"if len >= encoder\.data\.nice_len \{ encoder\.data\.back = rep as i32; encoder\.skip\(len - 1\); return len as u32; \}", 1, None, "nice rep")
+grab(F, r"if main_len >= encoder\.data\.nice_len as u32 \{ encoder\.data\.back = \(main_dist \+ REPS as i32\) as _; encoder\.skip\(\(main_len - 1\) as _\); return main_len; \}", 1, None, "nice match")
+grab(F, r"if main_len < MATCH_LEN_MIN as _ \|\| avail <= MATCH_LEN_MIN as _ \{ return 1; \}", 1, None, "literal fallback")
+grab(F, r"let limit = \(main_len - 1\)\.max\(MATCH_LEN_MIN as _\);", 1, None, "rep-hits-limit test")
+grab(F, r"encoder\.data\.back = \(main_dist \+ REPS as i32\) as _; encoder\.skip\(\(main_len - 2\) as _\); main_len", 1, None, "final match")
+
 def lean_val(v):
     if v is None:
         return None
@@ -124,10 +139,11 @@ def inst(d, zero_bools=()):
     return ", ".join(parts)
 
 text = "/- GENERATED by tools/extract_mf.py from /repo's sources on every run. Do not edit. -/\n"
-text += "import LzmaVerif.Model.Hc4\nimport LzmaVerif.Model.Bt4\nnamespace LzmaVerif.MfGen\n\n"
+text += "import LzmaVerif.Model.Hc4\nimport LzmaVerif.Model.Bt4\nimport LzmaVerif.Model.EncFast\nnamespace LzmaVerif.MfGen\n\n"
 text += f"/-- constants of hash234.rs as they are in the source now (0 = extraction failed) -/\ndef hashParams : Mf.HashParams := {{ {inst(hp)} }}\n\n"
 text += f"/-- constants and comparison shapes of hc4.rs -/\ndef hc4Params : Mf.Hc4.Hc4Params := {{ {inst(hc)}, hash := hashParams }}\n\n"
 text += f"/-- constants and comparison shapes of bt4.rs -/\ndef bt4Params : Mf.Bt4.Bt4Params := {{ {inst(bt)}, hash := hashParams }}\n\n"
+text += f"/-- constants of encoder_fast.rs / lib.rs used by the fast-mode parser model -/\ndef fastParams : EncFast.FastParams := {{ {inst(fp)} }}\n\n"
 text += f"/-- number of extraction errors of this run -/\ndef extractionErrors : Nat := {len(errs)}\n\nend LzmaVerif.MfGen\n"
 if "--dry" in sys.argv:
     print(text)
@@ -137,5 +153,5 @@ else:
         open(OUT, "w").write(text)
 for e in errs:
     print("mf extraction error:", e, file=sys.stderr)
-print(f"match-finder parameters: hash={hp} hc4={hc} bt4={bt} errors={len(errs)}")
+print(f"match-finder parameters: hash={hp} hc4={hc} bt4={bt} fast={fp} errors={len(errs)}")
 sys.exit(3 if errs else 0)
